@@ -137,7 +137,11 @@ class EvqRun:
             for op in self.case['ops']:
                 if self.failed:
                     break
-                self.apply(op)
+                if op[0] in ('run', 'step'):
+                    self.apply(op)
+                else:
+                    with instrument.external(self.bus):     # the harness in the role of the user
+                        self.apply(op)
         qm = self.qm
         return {'tie_groups': qm.tie_groups, 'nested': qm.nested_insertions,
                 'shifted': qm.shifted_resumes, 'nonzero_resumes': qm.nonzero_resumes}
@@ -203,8 +207,8 @@ def random_ops(rng, decimal=False, pause_centric=False, aim_pauses=False):
                 dt = -rng.choice(grid[2:])       # attempt to schedule in the past
             elif rng.random() < 0.04:
                 dt = rng.choice(['eps', 'eps_rel'])   # ... by the smallest possible margin
-            ops.append(['sched', rng.choice(assets), dt, rng.choice(prios),
-                        nested_ops(0) if rng.random() < 0.35 else None])
+            ops.append(['sched', rng.choice(assets + [-1]) if rng.random() < 0.15 else rng.choice(assets), dt,
+                        rng.choice(prios), nested_ops(0) if rng.random() < 0.35 else None])
         elif x < 0.40 + w_pause:
             y = rng.random()
             a = rng.choice(assets)
